@@ -47,12 +47,20 @@ def inline(r, depth=0, plugins=()):
         return "![" + words(r, 1, 2) + "](" + r.choice(["/img.png", "i.gif 'title'"]) + ")"
     if k < 0.72:
         return "[" + words(r, 1, 2) + "][" + r.choice(["ref", "REF", "r  2", "nope", ""]) + "]"
+    if k < 0.735:
+        # links whose text is (almost) their destination, destinations that need percent-encoding or hold parentheses
+        return r.choice(["<https://example.com/caf\u00e9/r\u00e9sum\u00e9>", "<o'brien@example.com>", "[my file.txt](<my file.txt>)", "[\u00fcber](\u00fcber)", "[foo](foo)",
+                         "[http://a.b](http://a.b)", "[a@b.c](mailto:a@b.c)", "[x](x \"t\")", "[Wiki](https://e.x/M_(l))", "[w](<https://e.x/M_(l)>)",
+                         "![p](/img/p(1).png)", "[w](</a(b)c> 't')", "[a b](<a b>)", "<HTTP://EXAMPLE.COM/Q>", "[w](/p&copy;q)"])
     if k < 0.75:
         return "<" + r.choice(["http://x.y/z", "mailto:a@b.c", "a@b.co", "ftp://q"]) + ">"
     if k < 0.79:
         return r.choice(["<b>", "</b>", "<br/>", "<a href='x'>", "</a>", "<!-- c -->", "<?p?>", "<i class=\"k\">"])
     if k < 0.83:
-        return r.choice(["&amp;", "&lt;", "&#35;", "&#x41;", "&copy;", "&nosuch;", "&", "&amp", "\\&copy;", "\\&#35;", "\\&lt;b\\&gt;", "&ltx;", "&quot"])
+        return r.choice(["&amp;", "&lt;", "&#35;", "&#x41;", "&copy;", "&nosuch;", "&", "&amp", "\\&copy;", "\\&#35;", "\\&lt;b\\&gt;", "&ltx;", "&quot",
+                         # numeric references at and beyond every limit (code point range, surrogates, NUL, the C int range)
+                         "&#x80000000;", "&#xFFFFFFFFFF;", "&#9999999;", "&#x110000;", "&#xD800;", "&#0;", "&#x10FFFF;",
+                         "[a](/p&#x80000000;q)", "[a](/p 't&#xFFFFFFFF;')", "<http://e.x/&#x100000000;>", "![i](&#xD800;.png)"])
     if k < 0.87:
         return "\\" + r.choice(PUNCT)
     if k < 0.90:
@@ -64,7 +72,7 @@ def inline(r, depth=0, plugins=()):
             "strikethrough": "~~" + w + "~~", "mark": "==" + w + "==", "insert": "^^" + w + "^^",
             "superscript": "^" + word(r) + "^", "subscript": "~" + word(r) + "~",
             "footnotes": "[^" + r.choice(["1", "n", "Note", "missing"]) + "]",
-            "url": r.choice(["https://example.com/a?b=c", "http://x.y"]),
+            "url": r.choice(["https://example.com/a?b=c", "http://x.y", "HTTP://EXAMPLE.COM/q", "Https://x.y/z", "see hTTp://a.b now"]),
             "abbr": r.choice(["HTML", "W3C"]), "math": "$" + r.choice(["a+b", "x<y", "\\frac"]) + "$",
             "ruby": r.choice(["[" + word(r) + "(" + word(r) + ")]"] * 6 + ["[a(b(c)]", "[a((b)]", "[f(g(x))]", "[a(b c)]", "[a(b)c(d)]", "[a()]", "[(b)]", "[a(b]", "[a(b))]"]) + r.choice(["", "", "", "[ref]", "[nope]", "(/u)", "[" + word(r) + "(" + word(r) + ")]", "[]", "("]), "spoiler": ">!" + w + "!<",
             "table": "a|b", "def_list": w, "task_lists": "[x]",
@@ -408,6 +416,8 @@ def toc_doc(r, style="fenced"):
         if k < 0.75:
             parts.append("#" * lv + " " + t + "\n")
         elif k < 0.85 and lv <= 2:
+            if r.random() < 0.4:
+                t = t + r.choice(["\n", "  \n", "\\\n"]) + words(r, 1, 3)      # a heading text that spans two source lines
             parts.append(t + "\n" + ("=" if lv == 1 else "-") * 3 + "\n")
         elif k < 0.93:
             parts.append("> " + "#" * lv + " " + t + "\n")
